@@ -152,6 +152,10 @@ def run(ctx):
         "json": lambda x: json.loads(json.dumps(x, cls=MeasuredJSONEncoder), cls=MeasuredJSONDecoder),
         "codecs_installed": via_codecs_installed,
         "json-install": via_install,
+        # decoder options that belong to the numbers of the caller's own data: floats read exactly (parse_float=Decimal) or as
+        # usual (parse_float=float), integers as usual - an int magnitude stays an int, a measured object stays what it is
+        "json-parse_float-Decimal": lambda x: json.loads(json.dumps(x, cls=MeasuredJSONEncoder), cls=MeasuredJSONDecoder, parse_float=Decimal),
+        "json-parse_float-float": lambda x: json.loads(json.dumps(x, cls=MeasuredJSONEncoder), cls=MeasuredJSONDecoder, parse_float=float, parse_int=int),
         "json-after-the-caller-edited-an-earlier-document": via_edited_document,
         "codecs_installed-options": via_codecs_installed_with_options,
         "pydantic-same-document-twice": via_same_document_twice,
@@ -164,8 +168,17 @@ def run(ctx):
     def ident(x):
         return (getattr(x, "names", None), getattr(x, "symbols", None), getattr(x, "name", None), getattr(x, "symbol", None))
 
+    def float_inside(x):
+        """a measured object whose own document contains a float (the exponent of a mixed SI/IEC prefix): a caller who asks
+        for floats to be read as Decimals gets that number as a Decimal too - another prefix, by the caller's own choice"""
+        p_ = getattr(getattr(x, "unit", x), "prefix", x if isinstance(x, Prefix) else None)
+        return isinstance(getattr(p_, "exponent", None), float)
+
     def roundtrip_singleton(kind, label, x, trivial):
         for cname, fn in codecs.items():
+            if cname == "json-parse_float-Decimal" and float_inside(x):
+                ctx.count("objects_with_a_float_inside_not_judged_under_parse_float_Decimal")
+                continue
             ctx.count("evaluations")
             ctx.count(f"objects_x_codecs/{kind}/{cname}")
             ctx.distinct((cname, kind, label), not trivial)
@@ -226,7 +239,7 @@ def run(ctx):
             ctx.count(f"quantities_x_codecs/{cname}/{mkind}")
             ctx.distinct((cname, "quantity", pools.shape_class(factors), mkind))
             case = {"quantity": [model.enc_mag(mag), term], "codec": cname}
-            uses_unit_str = cname in ("json", "json-after-the-caller-edited-an-earlier-document", "codecs_installed", "json-install", "codecs_installed-options", "pydantic-same-document-twice", "pydantic-python", "pydantic-json", "pydantic-json-mode-python", "sql-composite")
+            uses_unit_str = cname in ("json", "json-parse_float-Decimal", "json-parse_float-float", "json-after-the-caller-edited-an-earlier-document", "codecs_installed", "json-install", "codecs_installed-options", "pydantic-same-document-twice", "pydantic-python", "pydantic-json", "pydantic-json-mode-python", "sql-composite")
             if cname == "pydantic-python":
                 uses_unit_str = False  # python mode hands the Quantity object through
             try:
@@ -251,6 +264,8 @@ def run(ctx):
             # magnitude scaled (prefix folding); judge by SI value and magnitude type
             # the magnitude keeps its type; only prefix folding by str(unit) may turn an int into a float
             ok_type = type(y.magnitude) is type(mag) or (type(mag) is int and type(y.magnitude) is float and y.unit is not u)
+            if cname == "json-parse_float-Decimal" and type(mag) is float:
+                ok_type = isinstance(y.magnitude, (float, Decimal))   # the caller asked for floats to be read as Decimals
             same = False
             if orc.knows(u) and orc.knows(y.unit) and mdl.dim_of_unit(u) == mdl.dim_of_unit(y.unit):
                 a, b = orc.si_value(q.magnitude, q.unit), orc.si_value(y.magnitude, y.unit)
